@@ -487,6 +487,40 @@ def effective_inputs(world, P, m, ins):
             if t[0] == 'blank' or target_id(world, P, t) in m.dsp.nodes]
 
 
+def unsettled_keys(world, ins):
+    """Observables that read a BLANK position overridden in ``ins`` (names
+    and formula cells over it, and everything downstream): what they see of
+    the pushed value depends on the dispatch order (F-C07-4 territory), so an
+    output restriction may legitimately change them."""
+    from ..cyc import Graph
+    idx = Index(world)
+    bpos = set()
+    for t, _ in ins:
+        if t[0] == 'blank':
+            bpos.add(tuple(t[1]))
+        elif t[0] in ('name', 'range'):
+            r = world['names'][t[1]]['t'] if t[0] == 'name' else t[1]
+            bpos.update(p for p in rect_cells(r) if idx.occupant(p) is None)
+    if not bpos:
+        return set()
+    out = set()
+    for k, n in enumerate(world['names']):
+        if bpos & set(rect_cells(n['t'])):
+            out.add('n%d' % k)
+    direct = set()
+    for i, c in enumerate(world['cells']):
+        if 'f' in c:
+            for x in refs_of(c['f']):
+                r = x if x[0] == 'r' else world['names'][x[1]]['t']
+                if bpos & set(rect_cells(r)):
+                    direct.add(i)
+    G = Graph(world)
+    for i in range(len(world['cells'])):
+        if G.reach(i) & direct:
+            out.add('c%d' % i)
+    return out
+
+
 def covers_blank(world, ins):
     idx = Index(world)
     for t, _ in ins:
@@ -610,7 +644,10 @@ def execute(trace, env=None):
         full, _, _, _, _ = observe_calc(world, P, s, fresh2, op2)
         fulln = full.normal()
         stats['outputs_compared'] += 1
+        skip = unsettled_keys(world, obs_op['inputs'])
         for key in sorted(got):
+            if key in skip:
+                continue
             if present is not None and key[0] == 'c' and \
                     int(key[1:]) not in present:
                 continue
